@@ -58,7 +58,9 @@ TEXT = {
     'C11': ('Coq theorems: whenever try_read reports a ParseError, from any state and for any read result, the parser fields '
             'equal those of a new connection; and every later sequence of reads delivers the same requests, queues the same '
             'interim responses and reports the same first error as a new connection with the same limit (via the C01 '
-            'refinement). Differential run on error prefix x continuation x schedule; implementation-only oracle: from the '
+            'refinement); at the server a rejected read yields nothing (not even requests completed earlier in it), queues the 400 '
+            'and leaves the parser as a new connection\'s, after which polling yields exactly what the whole-stream parser started '
+            'afresh delivers on the following input. Differential run on error prefix x continuation x schedule; implementation-only oracle: from the '
             'first ParseError on a freshly created HttpConnection is fed the same bytes and descriptors and must behave '
             'identically (this replays the defect repaired by fix commit a290849).',
             'DESIGN.md section 5 C11', 'Coq proof (reset lemma + refinement) + differential run + fresh-connection shadow oracle'),
